@@ -50,7 +50,7 @@ ASSUMPTIONS = [
     "midway_failure_not_wrong assumes the per-member digest is injective on the byte strings involved "
     "(Section hypothesis dg_inj; satisfiable: instance with the identity digest); CRC-32 is not injective in general",
     "dereference=False; modes w/x (append sessions start from the same machine with a non-empty prefix: C08)",
-    "a symbolic link's text is never the path of another archived source (the early break in _find_link_target)",
+    "symbolic links have relative targets (an absolute target that is itself archived is re-based by _find_link_target)",
     "writeall is judged as the sequence of its write() calls (members before the failing one stay)",
 ]
 
@@ -504,6 +504,11 @@ def judge_property(case, obs):
                 out.append(("write-read-failure-wrong-member", "targeted-extract",
                             "after a read failure (later call re-read the source from where it stopped) extract(targets=[%r]) "
                             "returns %d bytes instead of %d without error" % (n, len(r[1]) // 2, len(src.get(n, "")) // 2)))
+        # not demanded by the property, recorded: members of calls that returned which a reader does not get back
+        if rd[0] != "ok" and f["k"] > 0:
+            tg = obs.get("targeted") or {}
+            lost = [a for a, k, d in want_ms if k != "dir" and tg.get(a, ("err",))[0] != "ok"]
+            obs["lost_after_midway"] = len(lost)
         return out
     # main clause: every other call returns, the archive holds exactly the members of the calls that returned
     kind = {"none": "write-valid-call-fails", "stat": "write-stat-failure-poisons", "name": "write-rejected-name-poisons",
@@ -661,6 +666,8 @@ def run(ctx):
         rep.dist("close/target/chain", "%s/%s/%s" % (case["close"], case["target"], case["chain"]))
         rd = obs.get("read") or ("none",)
         rep.dist("reader_outcome", rd[0] if rd[0] != "err" else rd[1])
+        if f is not None and f["kind"] == "read" and f["k"] > 0:
+            rep.dist("after_read_failure_with_k>0", rd[0] if rd[0] != "err" else rd[1])
         if fn_ok:
             ops = model_ops(case)
             mres = model.call("ws_run", ops)
@@ -684,6 +691,8 @@ def run(ctx):
                               match_keys={"kind": kind, "effect": effect,
                                           "fault": "none" if f is None else f["kind"],
                                           "shape": "-" if f is None else case["shapes"][case["at"]]})
+        if "lost_after_midway" in obs:
+            rep.dist("members_of_returned_calls_failing_their_check_after_a_midway_failure", obs["lost_after_midway"])
         if len(rep.cov["samples"]) < 6 and f is not None and rng.random() < 0.01:
             rep.sample({"case": describe(case), "outs": obs["outs"], "read": str(rd)[:160]})
 
